@@ -246,6 +246,10 @@ class ShimThread:
     def join(self, timeout=None):
         if self.t is None:
             raise RuntimeError("cannot join thread before it is started")
+        if timeout is not None:
+            # a bounded wait may always run out (the other thread can be arbitrarily slow): the caller carries on
+            self.s.point("join:timeout-elapsed")
+            return
         self.s.block_until(lambda: self.t.done, "join")
 
     def is_alive(self):
